@@ -5,6 +5,7 @@ specifications in /verif/spec, drives the real library in /repo, and ends with c
 Exit codes: 0 property held on everything explored (known findings are printed, not failed),
 1 at least one violation that is not a listed known finding, 2 machinery failure.
 """
+import hashlib
 import json
 import os
 import re
@@ -121,6 +122,9 @@ class Ctx:
         self.work.mkdir(parents=True, exist_ok=True)
         self.findings = load_findings(pid)
         self.violations = []      # (signature, what, replay)
+        self.pins = {}
+        self._pincache = {}
+        self.pin_mode = False
         self.cov = {'states': 0, 'transitions': 0, 'traces_validated_against_impl': 0,
                     'samples': [], 'evaluations': 0, 'tlc_jobs': []}
         self.assumptions = []
@@ -174,8 +178,41 @@ class Ctx:
         return r
 
     # ---------------------------------------------------------------- verdicts
-    def violation(self, signature, what, replay):
+    def violation(self, signature, what, replay, pin=None):
+        """pin=(key, observed): for findings listed with a pinned-outputs file, the violation is the listed
+        finding only if `observed` is exactly the failure recorded for that input; anything else is new."""
+        if pin is not None:
+            key, observed = pin
+            dg = hashlib.sha1(json.dumps(observed, sort_keys=True, default=str).encode()).hexdigest()[:12]
+            self.pins.setdefault(signature, {})[key] = dg
+            f = next((x for x in self.findings if x['signature'] == signature), None)
+            if f is not None and f.get('pinned') and not self.pin_mode:
+                table = self._pinned(f['pinned']).get(signature, {})
+                if table.get(key) != dg:
+                    signature = signature + '#not-the-listed-failure'
+                    what = what + ' (this input is not among the listed failures of the known finding, or fails differently)'
         self.violations.append((signature, what, replay))
+
+    def _pinned(self, rel):
+        if rel not in self._pincache:
+            path = VERIF / rel
+            self._pincache[rel] = json.loads(path.read_text()) if path.exists() else {}
+        return self._pincache[rel]
+
+    def write_pins(self):
+        """Developer action (./check <ID> --pin): record the exact failing inputs/outputs of listed findings."""
+        out = {}
+        for f in self.findings:
+            if f.get('pinned') and f['signature'] in self.pins:
+                out.setdefault(f['pinned'], {})[f['signature']] = self.pins[f['signature']]
+        for rel, tables in out.items():
+            path = VERIF / rel
+            path.parent.mkdir(exist_ok=True)
+            old = json.loads(path.read_text()) if path.exists() else {}
+            for sig, tab in tables.items():
+                old.setdefault(sig, {}).update(tab)
+            path.write_text(json.dumps(old, sort_keys=True, indent=0) + '\n')
+            print('pinned %d failing inputs into %s' % (sum(len(t) for t in tables.values()), rel))
 
     def note(self, msg):
         self.info.append(msg)
